@@ -324,6 +324,17 @@ loop:
 			if !stop.keepWorking {
 				return
 			}
+			// The work-in-progress was canceled. Forget it, keeping hold of
+			// any buffer that was filled but not yet sent.
+			if outWork.buffer != nil {
+				for i := range buffers {
+					if buffers[i] == nil {
+						buffers[i] = outWork.buffer
+						break
+					}
+				}
+			}
+			input, output, outWork, dRange = reqc, nil, rWork{}, Range{}
 			continue loop
 
 		case inWork := <-input:
@@ -429,6 +440,9 @@ loop:
 			if !stop.keepWorking {
 				return
 			}
+			// The work-in-progress was canceled. Wait for the next region of
+			// interest.
+			input, output, work, roi = roic, nil, rWork{}, Range{}
 			continue loop
 
 		case roi = <-input:
